@@ -63,6 +63,7 @@ type Spec struct {
 	Native          []string          `json:"native_files"`
 	ParallelEntries int               `json:"parallel_entries"`
 	SQLSchema bool `json:"sql_schema"`
+	Gen             []string          `json:"generate"`
 }
 
 type KnownFinding struct {
@@ -153,6 +154,23 @@ func load(repo, verif string, spec *Spec, tmp string) (*loaded, error) {
 		virt := filepath.Join(pkgDir, fmt.Sprintf("zz_verif_%s_%d%s", strings.ToLower(spec.Property), i, suffix))
 		l.overlay[virt] = []byte(src)
 		l.files[virt] = realGen
+	}
+	for _, g := range spec.Gen {
+		var src string
+		var err error
+		switch g {
+		case "storagedouble":
+			src, err = genStorageDouble(repo, pkgName, spec.Package)
+		default:
+			err = fmt.Errorf("unknown generator %q", g)
+		}
+		if err != nil {
+			return nil, err
+		}
+		name := "zz_verif_gen_" + g + suffix
+		os.WriteFile(filepath.Join(tmp, name), []byte(src), 0o644)
+		l.overlay[filepath.Join(pkgDir, name)] = []byte(src)
+		l.files[filepath.Join(pkgDir, name)] = filepath.Join(tmp, name)
 	}
 	cfg := &packages.Config{
 		Mode:    packages.LoadAllSyntax,
